@@ -56,6 +56,7 @@ func (t *brokerPublishTransactionBase) regack(snRegack *snPkts1.Regack, newState
 	}
 	snRegister := t.Data.(*snPkts1.Register)
 	t.handler.registeredTopics.Store(snRegister.TopicID, snRegister.TopicName)
+	t.handler.pendingRegistrations.Delete(snRegister.TopicName)
 	return t.ProceedSN(newState, t.snPublish)
 }
 
